@@ -5,13 +5,13 @@
        spec_state f b (C01 static refinement) IS sigb f b — for all byte strings;
      vhdx, vmdk: in every reachable state on stream st, format_match implies sigb f st, and sigb is
        monotone under extension of the stream for these two (prefix properties). *)
-Require Import OV.Base.Bytes OV.Base.Py OV.Base.PyInt OV.Base.Insp_Struct.
+Require Import OV.Base.Bytes OV.Base.Py OV.Base.PyInt OV.Base.Str OV.Base.Insp_Struct.
 Require Import OV.Gen.Insp_Consts OV.Model.Insp_Engine.
 Require Import OV.Model.Insp_Raw OV.Model.Insp_Qcow2 OV.Model.Insp_Qed OV.Model.Insp_Vhd OV.Model.Insp_Vdi
                OV.Model.Insp_Iso OV.Model.Insp_Gpt OV.Model.Insp_Luks OV.Model.Insp_Vhdx OV.Model.Insp_Vmdk OV.Model.Insp_All.
-Require Import OV.Model.C03.
+Require Import OV.Model.C03 OV.Model.C01_Vmdk.
 Require Import OV.Proofs.Insp_Engine OV.Proofs.Insp_FmtOk OV.Proofs.Insp_Static OV.Proofs.Insp_StaticQcow OV.Proofs.Insp_All.
-Require Import OV.Proofs.C03_Engine OV.Proofs.C03_Total.
+Require Import OV.Proofs.C03_Engine OV.Proofs.C03_Total OV.Proofs.C01_Vmdk_Base.
 Open Scope N_scope.
 
 (* ------------------------------------------------------------------ the signature predicates *)
@@ -26,6 +26,8 @@ Definition iso_hdr : N := rs_off (spec_of F_iso R_header).
    text descriptor (min_length of region 'header') *)
 Definition vmdk_text_len : N := match rs_min (spec_of F_vmdk R_header) with Some m => m | None => rs_len (spec_of F_vmdk R_header) end.
 Definition text_head (b : bytes) : bool := (vmdk_text_len <=? blen b) && forallb ascii_text (btake vmdk_text_len b).
+(* the literal createtype=<dquote> occurs, case-insensitively, before the first NUL byte *)
+Definition occ (b : bytes) : bool := occursb VMDK_CREATETYPE (lower_ascii (upto_nul b)).
 
 Definition sigb (f : fmt_id) (b : bytes) : bool :=
   match f with
@@ -34,7 +36,7 @@ Definition sigb (f : fmt_id) (b : bytes) : bool :=
   | F_qed => long_enough F_qed b && prefixb QED_MAGIC b
   | F_vhd => prefixb VHD_MAGIC b
   | F_vhdx => prefixb VHDX_MAGIC b
-  | F_vmdk => prefixb VMDK_MAGIC b || text_head b           (* text_head: the known-finding zone F1 *)
+  | F_vmdk => prefixb VMDK_MAGIC b || (text_head b && occ b)   (* second disjunct: text-descriptor mode, inside zone F1 *)
   | F_vdi => long_enough F_vdi b && (le_val (bsub VDI_SIG_LO VDI_SIG_HI b) =? VDI_SIG)
   | F_iso => long_enough F_iso b && mem_str (bsub (iso_hdr + ISO_SIG_LO) (iso_hdr + ISO_SIG_HI) b) [ISO_SIG_A; ISO_SIG_B; ISO_SIG_C]
   | F_gpt => long_enough F_gpt b && (le_val (bsub GPT_SIG_LO GPT_SIG_HI b) =? GPT_MBR_SIGNATURE)
@@ -287,10 +289,18 @@ Qed.
 (* for vhdx and vmdk the signature is a property of the head of the stream: it survives extension *)
 Lemma sigb_vhdx_app st t : sigb F_vhdx st = true -> sigb F_vhdx (st ++ t) = true.
 Proof. cbn [sigb]. apply prefixb_app_l. Qed.
+Lemma occ_prefix p b : is_prefix p b -> occ p = true -> occ b = true.
+Proof.
+  intros Hp H. destruct (occ b) eqn:Hb; [reflexivity|]. pose proof (noct_prefix p b Hp Hb) as Hn. unfold noct in Hn. unfold occ in H. congruence.
+Qed.
+Lemma type_found_occ d : vmdk_type_of (lower_ascii (upto_nul d)) <> VMDK_NOTFOUND -> occ d = true.
+Proof. intros H. destruct (occ d) eqn:Ho; [reflexivity|]. exfalso. apply H. apply noct_type. exact Ho. Qed.
+
 Lemma sigb_vmdk_app st t : sigb F_vmdk st = true -> sigb F_vmdk (st ++ t) = true.
 Proof.
   cbn [sigb]. intros H. apply orb_true_iff in H. apply orb_true_iff.
-  destruct H as [H|H]; [left; apply prefixb_app_l; exact H | right; apply text_head_app; exact H].
+  destruct H as [H|H]; [left; apply prefixb_app_l; exact H|]. right. apply andb_true_iff in H. destruct H as [H1 H2].
+  rewrite (text_head_app _ _ H1). apply (occ_prefix st); [exists t; reflexivity | exact H2].
 Qed.
 
 (* ------------------------------------------------------------------ VHDX *)
@@ -411,37 +421,51 @@ Proof.
   eapply VH_regs; [exact H|reflexivity|reflexivity|apply H|reflexivity].
 Qed.
 
+Lemma VH_first st (s0 : ist vx) c : VH st s0 -> i_fin s0 = false ->
+  VH (st ++ c) (set_regs (set_pos s0 (i_pos s0 + flen c)) (capture_regs [] c (i_pos s0 + flen c) (i_regs s0))).
+Proof.
+  intros (H1 & H2 & H3) Hfin. unfold VH. cbn [set_regs set_pos i_pos i_regs i_fin].
+  rewrite flen_blen, H1, <- blen_app. split; [reflexivity|]. split; [rewrite capture_regs_names; exact H2|].
+  rewrite rget_capture. destruct (rget R_header (i_regs s0)) as [h|]; cbn [option_map].
+  - destruct H3 as (He0 & Ho & Hm & HR). rewrite cap1_all. cbn [snd].
+    destruct (cap1_fixed [] c (blen (st ++ c)) R_header h He0) as (G1 & G2 & G3 & G4 & _).
+    rewrite cap1_all in G1, G2, G4. cbn [snd] in G1, G2, G4.
+    split; [exact G1|]. split; [congruence|]. split; [congruence|].
+    rewrite Hfin in HR. rewrite Hfin. apply rcapture_RI_first. exact HR.
+  - apply text_head_app. exact H3.
+Qed.
+
+Lemma VH_finished st (s0 : ist vx) c : VH st s0 -> i_fin s0 = true -> VH (st ++ c) (set_pos s0 (i_pos s0 + flen c)).
+Proof.
+  intros (H1 & H2 & H3) Hfin. unfold VH. cbn [set_pos i_pos i_regs i_fin].
+  rewrite flen_blen, H1, <- blen_app. split; [reflexivity|]. split; [exact H2|].
+  destruct (rget R_header (i_regs s0)) as [h|].
+  - destruct H3 as (He0 & Ho & Hm & HR). split; [exact He0|]. split; [exact Ho|]. split; [exact Hm|].
+    rewrite Hfin in *. apply RI_ext_fin. exact HR.
+  - apply text_head_app. exact H3.
+Qed.
+
+Lemma VH_cap st c (s0 : ist vx) only : VH (st ++ c) s0 -> i_fin s0 = false ->
+  VH (st ++ c) (set_regs s0 (capture_regs only c (i_pos s0) (i_regs s0))).
+Proof.
+  intros (H1 & H2 & H3) Hfin. unfold VH. cbn [set_regs i_pos i_regs i_fin].
+  split; [exact H1|]. split; [rewrite capture_regs_names; exact H2|].
+  rewrite rget_capture. destruct (rget R_header (i_regs s0)) as [h|]; cbn [option_map]; [|exact H3].
+  destruct H3 as (He0 & Ho & Hm & HR).
+  destruct (cap1_fixed only c (i_pos s0) R_header h He0) as (G1 & G2 & G3 & G4 & _).
+  split; [exact G1|]. split; [congruence|]. split; [congruence|].
+  rewrite Hfin in *. unfold cap1.
+  destruct (match only with [] => false | _ :: _ => negb (mem_rname R_header only) end); [exact HR|].
+  rewrite He0. cbn [orb]. destruct (negb (rcomplete h)); cbn [snd]; [|exact HR].
+  unfold rcapture. rewrite He0, H1. apply cap_fixed_RI; assumption.
+Qed.
+
 Lemma VH_eat st (s s' : ist vx) c e : VH st s -> eat_chunk vmdk_fmt s c = (s', e) -> VH (st ++ c) s'.
 Proof.
   intros H He. refine (pres_eat_chunk vmdk_fmt c (VH st) (VH (st ++ c)) _ _ _ _ _ s s' e H He).
-  - (* first presentation of the chunk *)
-    intros s0 (H1 & H2 & H3) Hfin. unfold VH. cbn [set_regs set_pos i_pos i_regs i_fin].
-    rewrite flen_blen, H1, <- blen_app. split; [reflexivity|]. split; [rewrite capture_regs_names; exact H2|].
-    rewrite rget_capture. destruct (rget R_header (i_regs s0)) as [h|]; cbn [option_map].
-    + destruct H3 as (He0 & Ho & Hm & HR). rewrite cap1_all. cbn [snd].
-      destruct (cap1_fixed [] c (blen (st ++ c)) R_header h He0) as (G1 & G2 & G3 & G4 & _).
-      rewrite cap1_all in G1, G2, G4. cbn [snd] in G1, G2, G4.
-      split; [exact G1|]. split; [congruence|]. split; [congruence|].
-      rewrite Hfin in HR. rewrite Hfin. apply rcapture_RI_first. exact HR.
-    + apply text_head_app. exact H3.
-  - (* finished inspector: only the position moves *)
-    intros s0 (H1 & H2 & H3) Hfin. unfold VH. cbn [set_pos i_pos i_regs i_fin].
-    rewrite flen_blen, H1, <- blen_app. split; [reflexivity|]. split; [exact H2|].
-    destruct (rget R_header (i_regs s0)) as [h|].
-    + destruct H3 as (He0 & Ho & Hm & HR). split; [exact He0|]. split; [exact Ho|]. split; [exact Hm|].
-      rewrite Hfin in *. apply RI_ext_fin. exact HR.
-    + apply text_head_app. exact H3.
-  - (* the chunk presented again to new regions *)
-    intros s0 only (H1 & H2 & H3) Hfin. unfold VH. cbn [set_regs i_pos i_regs i_fin].
-    split; [exact H1|]. split; [rewrite capture_regs_names; exact H2|].
-    rewrite rget_capture. destruct (rget R_header (i_regs s0)) as [h|]; cbn [option_map]; [|exact H3].
-    destruct H3 as (He0 & Ho & Hm & HR).
-    destruct (cap1_fixed only c (i_pos s0) R_header h He0) as (G1 & G2 & G3 & G4 & _).
-    split; [exact G1|]. split; [congruence|]. split; [congruence|].
-    rewrite Hfin in *. unfold cap1.
-    destruct (match only with [] => false | _ :: _ => negb (mem_rname R_header only) end); [exact HR|].
-    rewrite He0. cbn [orb]. destruct (negb (rcomplete h)); cbn [snd]; [|exact HR].
-    unfold rcapture. rewrite He0, H1. apply cap_fixed_RI; assumption.
+  - intros s0. apply VH_first.
+  - intros s0. apply VH_finished.
+  - intros s0 only. apply VH_cap.
   - intros s0 s1 e0 H0 Hp. eapply VH_post; eauto.
   - intros n s0 s1 e0 H0 Hc. eapply VH_rcomplete; eauto.
 Qed.
@@ -469,13 +493,220 @@ Proof.
   - apply VH_finish. exact IH.
 Qed.
 
+(* ---------- the text-descriptor branch: vmdktype comes from a descriptor region at offset 0 *)
+(* the header region is complete and carries the KDMV signature: it is never deleted again *)
+Definition kd (d : bytes) : bool :=
+  match unpack sf_vmdk_sparse (nsub 0 (0 + VMDK_MIN_SPARSE_HEADER) d) with
+  | Ok b => beq (sraw sf_vmdk_sparse 0 b) VMDK_MAGIC_PP
+  | Exn _ => false
+  end.
+Definition hdr_kdmv (s : ist vx) : Prop :=
+  exists h, rget R_header (i_regs s) = Some h /\ r_end h = false /\ rcomplete h = true /\ kd (r_data h) = true.
+(* the descriptor region is still the one _initialize created (offset 0): whatever was parsed from it is a
+   prefix of the stream, so a vmdktype other than 'formatnotfound' means createtype=<dquote> occurs *)
+Definition desc0 (st : bytes) (s : ist vx) : Prop :=
+  exists d, rget R_descriptor (i_regs s) = Some d /\ r_end d = false /\ r_off d = 0 /\ RI st (i_fin s) d /\
+            (v_vmdktype (i_ext s) = VMDK_NOTFOUND \/ occ st = true).
+Definition VT (st : bytes) (s : ist vx) : Prop :=
+  i_pos s = blen st /\ NoDup (map fst (i_regs s)) /\ (desc0 st s \/ hdr_kdmv s).
+
+Lemma hdr_kdmv_regs (s s' : ist vx) : rget R_header (i_regs s') = rget R_header (i_regs s) -> hdr_kdmv s -> hdr_kdmv s'.
+Proof. intros H (h & Hh & Hr). exists h. rewrite H. auto. Qed.
+
+Lemma hdr_kdmv_new_region (s s' : ist vx) n sp e : n <> R_header -> hdr_kdmv s -> new_region n sp s = (s', e) -> hdr_kdmv s'.
+Proof.
+  intros Hn (h & Hh & Hr) Hnr. unfold new_region in Hnr. destruct (has_region n s); inversion Hnr; subst; [exists h; auto|].
+  exists h. cbn [i_regs]. rewrite (rget_app_some _ _ _ _ Hh). auto.
+Qed.
+Lemma hdr_kdmv_delete (s s' : ist vx) n e : n <> R_header -> hdr_kdmv s -> delete_region n s = (s', e) -> hdr_kdmv s'.
+Proof.
+  intros Hn H Hd. unfold delete_region in Hd. destruct (has_region n s); inversion Hd; subst; [|exact H].
+  eapply hdr_kdmv_regs; [|exact H]. cbn [set_regs i_regs]. apply rget_rdel_other. congruence.
+Qed.
+Lemma hdr_kdmv_add_check (s s' : ist vx) k e : hdr_kdmv s -> add_check k s = (s', e) -> hdr_kdmv s'.
+Proof. intros H Ha. unfold add_check in Ha. destruct (mem_cname k (i_checks s)); inversion Ha; subst; exact H. Qed.
+
+Lemma nd_new_region {X} (s s' : ist X) n sp e : NoDup (map fst (i_regs s)) -> new_region n sp s = (s', e) -> NoDup (map fst (i_regs s')).
+Proof.
+  intros H Hn. unfold new_region, has_region, rhas in Hn. destruct (rget n (i_regs s)) eqn:Hg; inversion Hn; subst; [exact H|].
+  cbn [i_regs]. rewrite map_app. cbn [map fst]. apply NoDup_snoc; [exact H | apply rget_None_notin; exact Hg].
+Qed.
+Lemma nd_delete {X} (s s' : ist X) n e : NoDup (map fst (i_regs s)) -> delete_region n s = (s', e) -> NoDup (map fst (i_regs s')).
+Proof.
+  intros H Hd. unfold delete_region in Hd. destruct (has_region n s); inversion Hd; subst; [|exact H].
+  cbn [set_regs i_regs]. apply rdel_NoDup. exact H.
+Qed.
+Lemma nd_add_check {X} (s s' : ist X) k e : NoDup (map fst (i_regs s)) -> add_check k s = (s', e) -> NoDup (map fst (i_regs s')).
+Proof. intros H Ha. unfold add_check in Ha. destruct (mem_cname k (i_checks s)); inversion Ha; subst; exact H. Qed.
+Lemma pos_new_region {X} (s s' : ist X) n sp e : new_region n sp s = (s', e) -> i_pos s' = i_pos s /\ i_fin s' = i_fin s /\ i_ext s' = i_ext s.
+Proof. unfold new_region. destruct (has_region n s); intros H; inversion H; subst; auto. Qed.
+Lemma pos_delete {X} (s s' : ist X) n e : delete_region n s = (s', e) -> i_pos s' = i_pos s /\ i_fin s' = i_fin s /\ i_ext s' = i_ext s.
+Proof. unfold delete_region. destruct (has_region n s); intros H; inversion H; subst; auto. Qed.
+Lemma pos_add_check {X} (s s' : ist X) k e : add_check k s = (s', e) -> i_pos s' = i_pos s /\ i_fin s' = i_fin s /\ i_ext s' = i_ext s.
+Proof. unfold add_check. destruct (mem_cname k (i_checks s)); intros H; inversion H; subst; auto. Qed.
+
+(* once the header carries KDMV, post_process keeps it (only footer / descriptor regions are touched) *)
+Lemma VT_post_kdmv st (s s' : ist vx) e :
+  i_pos s = blen st -> NoDup (map fst (i_regs s)) -> hdr_kdmv s -> vmdk_post s = (s', e) -> VT st s'.
+Proof.
+  intros Hpos Hnd Hk Hp. destruct Hk as (h & Hh & He0 & Hc & Hkd).
+  assert (Hk : hdr_kdmv s) by (exists h; auto).
+  assert (Hsame : VT st s) by (split; [exact Hpos|]; split; [exact Hnd | right; exact Hk]).
+  unfold vmdk_post in Hp. rewrite Hh, Hc in Hp. cbn [negb] in Hp.
+  unfold vmdk_parse_sparse, get_region in Hp. rewrite Hh in Hp. cbn [bind] in Hp.
+  unfold kd in Hkd. destruct (unpack sf_vmdk_sparse (nsub 0 (0 + VMDK_MIN_SPARSE_HEADER) (r_data h))) as [b|ex]; [|discriminate].
+  cbn [bind] in Hp. rewrite Hkd in Hp. cbn [negb] in Hp.
+  destruct (negb _); [inversion Hp; subst; exact Hsame|].
+  match type of Hp with (match ?m with _ => _ end) = _ => destruct m as [s1 e1] eqn:Hm end.
+  assert (H1 : i_pos s1 = blen st /\ NoDup (map fst (i_regs s1)) /\ hdr_kdmv s1).
+  { destruct ((_ =? VMDK_GD_AT_END) && negb (has_region R_footer s)); [|inversion Hm; subst; auto].
+    destruct (new_region R_footer _ s) as [sa ea] eqn:Hn.
+    assert (Ha : i_pos sa = blen st /\ NoDup (map fst (i_regs sa)) /\ hdr_kdmv sa).
+    { destruct (pos_new_region _ _ _ _ _ Hn) as (P1 & _). split; [congruence|]. split; [eapply nd_new_region; eauto|].
+      eapply hdr_kdmv_new_region; [|exact Hk|exact Hn]. discriminate. }
+    destruct ea; [inversion Hm; subst; exact Ha|]. destruct Ha as (A1 & A2 & A3).
+    destruct (pos_add_check _ _ _ _ Hm) as (P1 & _). split; [congruence|]. split; [eapply nd_add_check; eauto | eapply hdr_kdmv_add_check; eauto]. }
+  destruct H1 as (P1 & N1 & K1).
+  assert (V1 : VT st s1) by (split; [exact P1|]; split; [exact N1 | right; exact K1]).
+  destruct e1; [inversion Hp; subst; exact V1|].
+  destruct (negb (_ =? VMDK_DESC_OFFSET)); [inversion Hp; subst; exact V1|].
+  fold (get_region R_descriptor s1) in Hp.
+  destruct (get_region R_descriptor s1) as [d|]; [|inversion Hp; subst; exact V1].
+  destruct (r_off d =? 0); [|inversion Hp; subst; exact V1].
+  destruct (delete_region R_descriptor s1) as [s2 e2] eqn:Hd.
+  assert (H2 : i_pos s2 = blen st /\ NoDup (map fst (i_regs s2)) /\ hdr_kdmv s2).
+  { destruct (pos_delete _ _ _ _ Hd) as (Q1 & _). split; [congruence|]. split; [eapply nd_delete; eauto|].
+    eapply hdr_kdmv_delete; [|exact K1|exact Hd]. discriminate. }
+  destruct H2 as (P2 & N2 & K2).
+  destruct e2; [inversion Hp; subst; split; [exact P2|]; split; [exact N2 | right; exact K2]|].
+  destruct (pos_new_region _ _ _ _ _ Hp) as (Q1 & _). split; [congruence|]. split; [eapply nd_new_region; eauto|].
+  right. eapply hdr_kdmv_new_region; [|exact K2|exact Hp]. discriminate.
+Qed.
+
+Lemma desc0_regs st (s s' : ist vx) :
+  rget R_descriptor (i_regs s') = rget R_descriptor (i_regs s) -> i_fin s' = i_fin s -> i_ext s' = i_ext s -> desc0 st s -> desc0 st s'.
+Proof. intros Hr Hf Hx (d & Hd & H). exists d. rewrite Hr, Hf, Hx. auto. Qed.
+
+Lemma VT_post st (s s' : ist vx) e : VH st s -> VT st s -> vmdk_post s = (s', e) -> VT st s'.
+Proof.
+  intros HV (Hpos & Hnd & [Hd|Hk]) Hp; [|eapply VT_post_kdmv; eauto].
+  assert (Hsame : VT st s) by (split; [exact Hpos|]; split; [exact Hnd | left; exact Hd]).
+  pose proof Hp as Hp0. unfold vmdk_post in Hp.
+  destruct (rget R_header (i_regs s)) as [h|] eqn:Hh; [|inversion Hp; subst; exact Hsame].
+  destruct (rcomplete h) eqn:Hc; cbn [negb] in Hp; [|inversion Hp; subst; exact Hsame].
+  unfold vmdk_parse_sparse, get_region in Hp. rewrite Hh in Hp. cbn [bind] in Hp.
+  destruct (unpack sf_vmdk_sparse (nsub 0 (0 + VMDK_MIN_SPARSE_HEADER) (r_data h))) as [b|ex] eqn:Hu; cbn [bind] in Hp;
+    [|inversion Hp; subst; exact Hsame].
+  destruct (beq (sraw sf_vmdk_sparse 0 b) VMDK_MAGIC_PP) eqn:Hsig; cbn [negb] in Hp.
+  - (* KDMV: from now on the header stays *)
+    destruct HV as (_ & _ & HV). rewrite Hh in HV. destruct HV as (He0 & _).
+    eapply VT_post_kdmv; eauto. exists h. unfold kd. rewrite Hu. auto.
+  - destruct (forallb ascii_text (r_data h)); [|inversion Hp; subst; exact Hsame].
+    destruct (pos_delete _ _ _ _ Hp) as (Q1 & Q2 & Q3). split; [congruence|]. split; [eapply nd_delete; eauto|]. left.
+    eapply desc0_regs; [| exact Q2 | exact Q3 | exact Hd].
+    unfold delete_region in Hp. destruct (has_region R_header s); inversion Hp; subst; [|reflexivity].
+    cbn [set_regs i_regs]. apply rget_rdel_other. discriminate.
+Qed.
+
+Lemma VT_rcomplete st n (s s' : ist vx) e : VT st s -> vmdk_rcomplete n s = (s', e) -> VT st s'.
+Proof.
+  intros (Hpos & Hnd & Hc) H. unfold vmdk_rcomplete, vmdk_parse_descriptor in H.
+  assert (Hsame : VT st s) by (split; [exact Hpos|]; split; assumption).
+  destruct n; try (inversion H; subst; exact Hsame).
+  unfold get_region in H. destruct (rget R_descriptor (i_regs s)) as [d0|] eqn:Hd0; [|inversion H; subst; exact Hsame].
+  destruct (negb _); inversion H; subst; [exact Hsame|].
+  split; [exact Hpos|]. split; [exact Hnd|]. destruct Hc as [(d & Hd & He0 & Ho & HR & _)|Hk].
+  - left. rewrite Hd0 in Hd. inversion Hd; subst d0. exists d. cbn [set_ext i_regs i_fin i_ext v_vmdktype].
+    split; [exact Hd0|]. split; [exact He0|]. split; [exact Ho|]. split; [exact HR|].
+    fold (upto_nul (r_data d)).
+    destruct (beq (vmdk_type_of (lower_ascii (upto_nul (r_data d)))) VMDK_NOTFOUND) eqn:Hb; [left; apply beq_eq; exact Hb|].
+    right. apply (occ_prefix (r_data d)).
+    + destruct HR as (_ & Hsl & _). rewrite Ho in Hsl. unfold bslice in Hsl. rewrite bskip_0 in Hsl. rewrite Hsl. apply is_prefix_btake.
+    + apply type_found_occ. intros Heq. rewrite Heq, beq_refl in Hb. discriminate.
+  - right. eapply hdr_kdmv_regs; [|exact Hk]. reflexivity.
+Qed.
+
+Lemma hdr_kdmv_capture (s0 : ist vx) only c pos : hdr_kdmv s0 -> hdr_kdmv (set_regs s0 (capture_regs only c pos (i_regs s0))).
+Proof.
+  intros (h & Hh & He0 & Hc & Hk). exists h. cbn [set_regs i_regs]. rewrite rget_capture, Hh. cbn [option_map].
+  rewrite (cap1_complete only c pos R_header h He0 Hc). auto.
+Qed.
+
+Lemma VT_eat st (s s' : ist vx) c e : VH st s -> VT st s -> eat_chunk vmdk_fmt s c = (s', e) -> VH (st ++ c) s' /\ VT (st ++ c) s'.
+Proof.
+  intros HV HT He.
+  refine (pres_eat_chunk vmdk_fmt c (fun s => VH st s /\ VT st s) (fun s => VH (st ++ c) s /\ VT (st ++ c) s) _ _ _ _ _ s s' e (conj HV HT) He).
+  - intros s0 [V0 (Hpos & Hnd & Hc)] Hfin. split; [apply VH_first; assumption|].
+    split; [cbn [set_regs set_pos i_pos]; rewrite flen_blen, Hpos, <- blen_app; reflexivity|].
+    split; [cbn [set_regs i_regs]; rewrite capture_regs_names; exact Hnd|].
+    destruct Hc as [(d & Hd & He0 & Ho & HR & Hv)|Hk].
+    + left. unfold desc0. cbn [set_regs set_pos i_regs i_fin i_ext]. rewrite rget_capture, Hd. cbn [option_map].
+      eexists. split; [reflexivity|]. rewrite cap1_all. cbn [snd].
+      destruct (cap1_fixed [] c (i_pos s0 + flen c) R_descriptor d He0) as (G1 & G2 & _). rewrite cap1_all in G1, G2. cbn [snd] in G1, G2.
+      split; [exact G1|]. split; [congruence|]. split.
+      * rewrite Hfin in *. rewrite flen_blen, Hpos, <- blen_app. apply rcapture_RI_first. exact HR.
+      * destruct Hv as [Hv|Hv]; [left; exact Hv | right; apply (occ_prefix st); [exists c; reflexivity | exact Hv]].
+    + right. apply (hdr_kdmv_capture (set_pos s0 (i_pos s0 + flen c))). exact Hk.
+  - intros s0 [V0 (Hpos & Hnd & Hc)] Hfin. split; [apply VH_finished; assumption|].
+    split; [cbn [set_pos i_pos]; rewrite flen_blen, Hpos, <- blen_app; reflexivity|]. split; [exact Hnd|].
+    destruct Hc as [(d & Hd & He0 & Ho & HR & Hv)|Hk]; [left|right; exact Hk].
+    exists d. cbn [set_pos i_regs i_fin i_ext]. split; [exact Hd|]. split; [exact He0|]. split; [exact Ho|]. split.
+    + rewrite Hfin in *. apply RI_ext_fin. exact HR.
+    + destruct Hv as [Hv|Hv]; [left; exact Hv | right; apply (occ_prefix st); [exists c; reflexivity | exact Hv]].
+  - intros s0 only [V0 (Hpos & Hnd & Hc)] Hfin. split; [apply VH_cap; assumption|].
+    split; [exact Hpos|]. split; [cbn [set_regs i_regs]; rewrite capture_regs_names; exact Hnd|].
+    destruct Hc as [(d & Hd & He0 & Ho & HR & Hv)|Hk]; [left|right; apply hdr_kdmv_capture; exact Hk].
+    unfold desc0. cbn [set_regs i_regs i_fin i_ext]. rewrite rget_capture, Hd. cbn [option_map]. eexists. split; [reflexivity|].
+    destruct (cap1_fixed only c (i_pos s0) R_descriptor d He0) as (G1 & G2 & _).
+    split; [exact G1|]. split; [congruence|]. split; [|exact Hv].
+    rewrite Hfin in *. unfold cap1.
+    destruct (match only with [] => false | _ :: _ => negb (mem_rname R_descriptor only) end); [exact HR|].
+    rewrite He0. cbn [orb]. destruct (negb (rcomplete d)); cbn [snd]; [|exact HR].
+    unfold rcapture. rewrite He0, Hpos. apply cap_fixed_RI; assumption.
+  - intros s0 s1 e0 [V0 T0] Hp. split; [eapply VH_post; eauto | eapply VT_post; eauto].
+  - intros n s0 s1 e0 [V0 T0] Hc. split; [eapply VH_rcomplete; eauto | eapply VT_rcomplete; eauto].
+Qed.
+
+Lemma VT_finish st (s : ist vx) : VT st s -> VT st (Insp_Engine.finish s).
+Proof.
+  intros (Hpos & Hnd & Hc). split; [exact Hpos|]. split; [unfold Insp_Engine.finish; cbn [i_regs]; rewrite map_map; exact Hnd|].
+  destruct Hc as [(d & Hd & He0 & Ho & HR & Hv)|(h & Hh & He0 & Hcm & Hk)].
+  - left. exists d. unfold Insp_Engine.finish. cbn [i_regs i_fin i_ext]. rewrite rget_finish, Hd. cbn [option_map].
+    split; [rewrite He0; reflexivity|]. split; [exact He0|]. split; [exact Ho|]. split; [eapply RI_to_fin; exact HR | exact Hv].
+  - right. exists h. unfold Insp_Engine.finish. cbn [i_regs]. rewrite rget_finish, Hh. cbn [option_map].
+    split; [rewrite He0; reflexivity|]. auto.
+Qed.
+
+Lemma VT_init : VT [] (init_ist vmdk_fmt).
+Proof.
+  split; [reflexivity|]. split; [cbn; repeat constructor; cbn; intuition discriminate|]. left.
+  eexists. split; [vm_compute; reflexivity|]. cbn [r_end r_off i_fin i_ext init_ist f_ext0 vmdk_fmt v_vmdktype].
+  split; [reflexivity|]. split; [reflexivity|]. split; [|left; reflexivity].
+  unfold RI. cbn [r_data r_len r_off r_end]. rewrite blen_nil. split; [lia|]. split; [reflexivity | discriminate].
+Qed.
+
+Lemma reach_VT st s : reach vmdk_fmt st s -> VH st s /\ VT st s.
+Proof.
+  intros Hr. induction Hr as [|st s c s' e Hr IH He|st s Hr IH].
+  - split; [exact VH_init | exact VT_init].
+  - destruct IH as [HV HT]. eapply VT_eat; eauto.
+  - destruct IH as [HV HT]. split; [apply VH_finish; exact HV | apply VT_finish; exact HT].
+Qed.
+
+(* C03_format_implies_signature, vmdk: format_match in a reachable state means KDMV at offset 0, or the
+   text-descriptor mode (zone F1): the first 64 bytes are printable ASCII AND createtype=<dquote> occurs before the
+   first NUL byte of the stream (that is what vmdktype != 'formatnotfound' requires) *)
 Theorem vmdk_match_signature st s :
   reach vmdk_fmt st s -> f_match vmdk_fmt s = Ok true -> sigb F_vmdk st = true.
 Proof.
-  intros Hr Hm. destruct (reach_VH st s Hr) as (_ & _ & H3).
+  intros Hr Hm. destruct (reach_VT st s Hr) as [(_ & _ & H3) (_ & _ & HT)].
   cbn [f_match vmdk_fmt] in Hm. unfold vmdk_match in Hm. cbn [sigb]. apply orb_true_iff.
-  destruct (rget R_header (i_regs s)) as [h|].
+  destruct (rget R_header (i_regs s)) as [h|] eqn:Hh.
   - left. assert (Hp : prefixb VMDK_MAGIC (r_data h) = true) by congruence. destruct H3 as (_ & Ho & _ & (_ & Hsl & _)).
     rewrite Hsl, Ho in Hp. unfold bslice in Hp. rewrite bskip_0 in Hp. eapply prefixb_of_btake. exact Hp.
-  - right. exact H3.
+  - right. rewrite H3. cbn [andb].
+    destruct HT as [(d & _ & _ & _ & _ & Hv)|(h & Hh' & _)]; [|rewrite Hh in Hh'; discriminate].
+    destruct Hv as [Hv|Hv]; [|exact Hv]. exfalso.
+    assert (Hn : negb (beq (v_vmdktype (i_ext s)) VMDK_NOTFOUND) = true) by congruence.
+    rewrite Hv, beq_refl in Hn. discriminate.
 Qed.
